@@ -3,20 +3,19 @@
 package main
 
 // C19 helper, injected by the harness (go build -overlay) into cmd/structlayout-optimize as one
-// extra file. Process start-up costs tens of milliseconds in the sandbox, far too much for one
+// extra file. Starting a process costs tens of milliseconds in the sandbox, far too much for one
 // process per struct type, so this file turns the unmodified program into a loop: for every
-// request line it gives the real main() a fresh stdin/stdout/os.Args and fresh flag values and
-// calls it. Nothing of main.go is replaced; main(), combine(), optimize(), pad() are the
-// repository's own code.
+// request line it gives the real main() a fresh stdin, fresh os.Args and fresh flag values and
+// calls it. Nothing of main.go is replaced: main(), combine(), optimize(), pad() are the
+// repository's own code, and main() writes to the real stdout.
 //
-// request:  <flags separated by blanks> TAB <stdin contents on one line> LF
-// response: <n> LF <n bytes written by main() to stdout>
+// request:  <flags separated by blanks> TAB <stdin contents, one line> LF
+// response: whatever main() wrote to stdout, then the line "#"
 
 import (
 	"bufio"
 	"bytes"
 	"fmt"
-	"io"
 	"os"
 	"strings"
 )
@@ -27,36 +26,28 @@ func init() {
 	}
 	prog := os.Args[0]
 	rd := bufio.NewReaderSize(os.Stdin, 1<<20)
-	w := bufio.NewWriter(os.Stdout)
 	for {
 		line, err := rd.ReadBytes('\n')
 		if err != nil {
 			os.Exit(0)
 		}
-		flags, input, _ := bytes.Cut(line, []byte{'\t'})
+		flags, input, _ := bytes.Cut(bytes.TrimRight(line, "\n"), []byte{'\t'})
 		inR, inW, err := os.Pipe()
 		if err != nil {
 			fmt.Fprintln(os.Stderr, "c19 serve:", err)
 			os.Exit(3)
 		}
-		outR, outW, err := os.Pipe()
-		if err != nil {
-			fmt.Fprintln(os.Stderr, "c19 serve:", err)
-			os.Exit(3)
+		if len(input) > 32<<10 {
+			go func() { inW.Write(input); inW.Close() }()
+		} else {
+			inW.Write(input)
+			inW.Close()
 		}
-		go func() { inW.Write(input); inW.Close() }()
-		done := make(chan []byte)
-		go func() { b, _ := io.ReadAll(outR); done <- b }()
-		os.Stdin, os.Stdout = inR, outW
+		os.Stdin = inR
 		os.Args = append([]string{prog}, strings.Fields(string(flags))...)
 		fJSON, fRecurse, fVersion = false, false, false
 		main()
-		outW.Close()
-		data := <-done
-		outR.Close()
 		inR.Close()
-		fmt.Fprintf(w, "%d\n", len(data))
-		w.Write(data)
-		w.Flush()
+		os.Stdout.WriteString("#\n")
 	}
 }
